@@ -543,7 +543,10 @@ class Sym(object):
         if o is None:
             return NotImplemented
         if not (self.im.is_zero() and o.im.is_zero()):
-            raise SymError("ordering comparison of complex symbolic values")
+            # numpy orders complex numbers lexicographically (real part first)
+            dre = self.re - o.re
+            dim = self.im - o.im
+            return SymBool.any([SymBool.cmp('<', dre), SymBool.all([SymBool.cmp('==', dre), SymBool.cmp(op, dim)])])
         return SymBool.cmp(op, self.re - o.re)
 
     def __lt__(self, o):
